@@ -15,6 +15,7 @@ var checks = map[string]func(tier string) int{
 	"C05": props.CheckC05,
 	"C06": props.CheckC06,
 	"C07": props.CheckC07,
+	"C08": props.CheckC08,
 	"C09": props.CheckC09,
 	"C10": props.CheckC10,
 	"C11": props.CheckC11,
